@@ -530,11 +530,69 @@ func (f *FakeDocker) ContainerList(_ context.Context, opts apicontainer.ListOpti
 		f.L.mu.Unlock()
 		return nil, f.ListErr
 	}
+	// what the daemon does with the listing options: without All only running containers are listed;
+	// the filters label (raw key, or raw key=value; every one given must hold), id (prefix), name
+	// (substring of a name), status (any of the given states) and ancestor (image) narrow the list
 	out := make([]types.Container, 0, len(f.Containers))
 	for _, c := range f.Containers {
+		if !opts.All && c.C.State != "running" {
+			continue
+		}
+		if !fakeListFilterMatch(opts, c.C) {
+			continue
+		}
 		out = append(out, c.C)
 	}
+	if opts.Limit > 0 && len(out) > opts.Limit {
+		out = out[:opts.Limit]
+	}
 	return out, nil
+}
+
+func fakeListFilterMatch(opts apicontainer.ListOptions, ctr types.Container) bool {
+	fl := opts.Filters
+	if fl.Len() == 0 {
+		return true
+	}
+	for _, want := range fl.Get("label") {
+		k, v, hasV := strings.Cut(want, "=")
+		got, ok := ctr.Labels[k]
+		if !ok || (hasV && got != v) {
+			return false
+		}
+	}
+	anyOf := func(key string, pred func(string) bool) bool {
+		vals := fl.Get(key)
+		if len(vals) == 0 {
+			return true
+		}
+		for _, v := range vals {
+			if pred(v) {
+				return true
+			}
+		}
+		return false
+	}
+	if !anyOf("id", func(v string) bool { return strings.HasPrefix(ctr.ID, v) }) {
+		return false
+	}
+	if !anyOf("name", func(v string) bool {
+		for _, n := range ctr.Names {
+			if strings.Contains(n, v) {
+				return true
+			}
+		}
+		return false
+	}) {
+		return false
+	}
+	if !anyOf("status", func(v string) bool { return ctr.State == v }) {
+		return false
+	}
+	if !anyOf("ancestor", func(v string) bool { return ctr.Image == v || ctr.ImageID == v }) {
+		return false
+	}
+	return true
 }
 
 func (f *FakeDocker) ContainerLogs(_ context.Context, id string, opts apicontainer.LogsOptions) (io.ReadCloser, error) {
